@@ -44,6 +44,16 @@ def _run(ctx):
                     for line in g:
                         out.write(line)
                 n += m
+            # directory names of RRDP repositories in a dump: every order of four registrations
+            lib.tlc(ctx, "mc_dumpregistry_bad", "MC_DumpRegistry.tla", "MC_DumpRegistry_bad.cfg", workers=2, timeout=600,
+                    expect_ok=False, count=False)
+            gen = lib.tlc(ctx, "gen_dumpregistry", "MC_DumpRegistry.tla", "MC_DumpRegistry.cfg", workers=2, timeout=600, count=False)
+            part = ctx.path("dumpreg.ndjson")
+            if lib.extract_replays(gen["out"], part) == 0:
+                raise lib.ToolError("no registration sequences exported by MC_DumpRegistry")
+            with open(part) as g:
+                for line in g:
+                    out.write(line)
     res = lib.vh(ctx, "paths", beh, props=[pid], timeout=3000, cacheable=True)
     r = res["per_property"][pid]
     ctx.extra["behaviours_exported"] = n
